@@ -86,3 +86,24 @@ pub fn harness_error(msg: &str) -> ! {
     eprintln!("HARNESS-ERROR: {msg}");
     std::process::exit(EXIT_HARNESS)
 }
+
+
+/// An application that uses jubako may have a logger installed; `log::warn!(..)` and friends only
+/// evaluate their arguments when one is. The simulator installs a sink at the most verbose level
+/// that formats every record (so that whatever the arguments do - lock, index, unwrap - happens)
+/// and drops it.
+pub fn install_log_sink() {
+    struct Sink;
+    impl log::Log for Sink {
+        fn enabled(&self, _: &log::Metadata) -> bool {
+            true
+        }
+        fn log(&self, record: &log::Record) {
+            let _ = format!("{}", record.args());
+        }
+        fn flush(&self) {}
+    }
+    static SINK: Sink = Sink;
+    let _ = log::set_logger(&SINK);
+    log::set_max_level(log::LevelFilter::Trace);
+}
